@@ -18,6 +18,7 @@ pipeline  recognize_number / recognize_ordinal / recognize_percentage on generat
 
 Called from corr/c04.py: `unit(ctx)`."""
 import math
+import unicodedata
 from decimal import Decimal, DecimalException
 from fractions import Fraction
 
@@ -529,7 +530,8 @@ def judge(res, text, kind, expect, exact, suffix=''):
     if len(res) > 1:
         return 'split', 'recognised as %d entities: %r' % (len(res), [(t, v) for _, _, t, v, _ in res])
     stt, en, t, v, _ = res[0]
-    if t.strip().lower() != text.strip().lower():
+    # the entity text is the pre-processed query (full-width digits become half-width there): C01's subject, not judged here
+    if unicodedata.normalize('NFKC', t).strip().lower() != unicodedata.normalize('NFKC', text).strip().lower():
         return 'span', 'entity text %r, expression %r' % (t, text)
     if v is None or not v.endswith(suffix):
         return 'value', 'resolution %r lacks the suffix %r' % (v, suffix)
@@ -594,6 +596,14 @@ def pipeline(ctx):
             Fraction(int(str(h % 1000) + t), 10 ** len(t)), True, '%')
     for a, b, u, k in [(1, 5, '万', 4), (2, 5, '亿', 8), (12, 34, '万', 4), (3, 0, '万', 4), (9999, 9, '亿', 8)]:
         add('number', 'zh-cn', '%d.%d%s' % (a, b, u), 'double-round', Fraction(int('%d%d' % (a, b)), 10 ** len(str(b))) * 10 ** k)
+    # ASCII / full-width digits in front of a round character ('1234万', '1万2千'): the extractor tags them as integers
+    for _ in range(120 if big else 40):
+        x, y = r.randint(1, 9999), r.randint(1, 9)
+        add('number', 'zh-cn', '%d万' % x, 'digits-round', x * 10 ** 4)
+        add('number', 'zh-cn', '%d亿' % x, 'digits-round', x * 10 ** 8)
+        add('number', 'zh-cn', '%d万%d千' % (x % 10 + 1, y), 'digits-round', (x % 10 + 1) * 10 ** 4 + y * 1000)
+        add('number', 'zh-cn', ''.join(FW[int(ch)] for ch in str(x)) + '万', 'digits-round', x * 10 ** 4)
+        add('number', 'ja-jp', '%d万' % x, 'digits-round', x * 10 ** 4)
     # fractions
     for _ in range(260 if big else 90):
         d = r.choice([2, 3, 4, 5, 6, 7, 8, 9, 10, 11, 12, 16, 25, 100, 101, 1000, r.randint(2, 9999)])
